@@ -205,9 +205,9 @@ Props/C06.vos Props/C06.vok Props/C06.required_vos: Props/C06.v Conv/Model.vos C
 Props/C07.vo Props/C07.glob Props/C07.v.beautified Props/C07.required_vo: Props/C07.v Typegraph/Graph.vo Typegraph/Solver.vo Typegraph/Spec.vo Typegraph/SetLemmas.vo Typegraph/RfgProofs.vo Typegraph/PathProofs.vo Typegraph/SearchProofs.vo Typegraph/SolverProofs.vo Typegraph/ResolveMono.vo Typegraph/ExactProofs.vo Typegraph/WalkProofs.vo Typegraph/FuelProofs.vo
 Props/C07.vio: Props/C07.v Typegraph/Graph.vio Typegraph/Solver.vio Typegraph/Spec.vio Typegraph/SetLemmas.vio Typegraph/RfgProofs.vio Typegraph/PathProofs.vio Typegraph/SearchProofs.vio Typegraph/SolverProofs.vio Typegraph/ResolveMono.vio Typegraph/ExactProofs.vio Typegraph/WalkProofs.vio Typegraph/FuelProofs.vio
 Props/C07.vos Props/C07.vok Props/C07.required_vos: Props/C07.v Typegraph/Graph.vos Typegraph/Solver.vos Typegraph/Spec.vos Typegraph/SetLemmas.vos Typegraph/RfgProofs.vos Typegraph/PathProofs.vos Typegraph/SearchProofs.vos Typegraph/SolverProofs.vos Typegraph/ResolveMono.vos Typegraph/ExactProofs.vos Typegraph/WalkProofs.vos Typegraph/FuelProofs.vos
-Props/C08.vo Props/C08.glob Props/C08.v.beautified Props/C08.required_vo: Props/C08.v Typegraph/History.vo Typegraph/HistoryProofs.vo Generated/C08_Invalidation.vo
-Props/C08.vio: Props/C08.v Typegraph/History.vio Typegraph/HistoryProofs.vio Generated/C08_Invalidation.vio
-Props/C08.vos Props/C08.vok Props/C08.required_vos: Props/C08.v Typegraph/History.vos Typegraph/HistoryProofs.vos Generated/C08_Invalidation.vos
+Props/C08.vo Props/C08.glob Props/C08.v.beautified Props/C08.required_vo: Props/C08.v Typegraph/History.vo Typegraph/HistoryProofs.vo Generated/C08_Invalidation.vo Typegraph/HistorySolver.vo
+Props/C08.vio: Props/C08.v Typegraph/History.vio Typegraph/HistoryProofs.vio Generated/C08_Invalidation.vio Typegraph/HistorySolver.vio
+Props/C08.vos Props/C08.vok Props/C08.required_vos: Props/C08.v Typegraph/History.vos Typegraph/HistoryProofs.vos Generated/C08_Invalidation.vos Typegraph/HistorySolver.vos
 Props/C09.vo Props/C09.glob Props/C09.v.beautified Props/C09.required_vo: Props/C09.v Typegraph/Reach.vo Typegraph/ReachProofs.vo
 Props/C09.vio: Props/C09.v Typegraph/Reach.vio Typegraph/ReachProofs.vio
 Props/C09.vos Props/C09.vok Props/C09.required_vos: Props/C09.v Typegraph/Reach.vos Typegraph/ReachProofs.vos
@@ -286,6 +286,9 @@ Typegraph/History.vos Typegraph/History.vok Typegraph/History.required_vos: Type
 Typegraph/HistoryProofs.vo Typegraph/HistoryProofs.glob Typegraph/HistoryProofs.v.beautified Typegraph/HistoryProofs.required_vo: Typegraph/HistoryProofs.v Typegraph/History.vo
 Typegraph/HistoryProofs.vio: Typegraph/HistoryProofs.v Typegraph/History.vio
 Typegraph/HistoryProofs.vos Typegraph/HistoryProofs.vok Typegraph/HistoryProofs.required_vos: Typegraph/HistoryProofs.v Typegraph/History.vos
+Typegraph/HistorySolver.vo Typegraph/HistorySolver.glob Typegraph/HistorySolver.v.beautified Typegraph/HistorySolver.required_vo: Typegraph/HistorySolver.v Typegraph/Graph.vo Typegraph/Solver.vo Typegraph/Spec.vo Typegraph/SetLemmas.vo Typegraph/PathProofs.vo Typegraph/SolverProofs.vo Typegraph/ExactProofs.vo Typegraph/FuelProofs.vo Typegraph/History.vo Typegraph/HistoryProofs.vo
+Typegraph/HistorySolver.vio: Typegraph/HistorySolver.v Typegraph/Graph.vio Typegraph/Solver.vio Typegraph/Spec.vio Typegraph/SetLemmas.vio Typegraph/PathProofs.vio Typegraph/SolverProofs.vio Typegraph/ExactProofs.vio Typegraph/FuelProofs.vio Typegraph/History.vio Typegraph/HistoryProofs.vio
+Typegraph/HistorySolver.vos Typegraph/HistorySolver.vok Typegraph/HistorySolver.required_vos: Typegraph/HistorySolver.v Typegraph/Graph.vos Typegraph/Solver.vos Typegraph/Spec.vos Typegraph/SetLemmas.vos Typegraph/PathProofs.vos Typegraph/SolverProofs.vos Typegraph/ExactProofs.vos Typegraph/FuelProofs.vos Typegraph/History.vos Typegraph/HistoryProofs.vos
 Typegraph/PathProofs.vo Typegraph/PathProofs.glob Typegraph/PathProofs.v.beautified Typegraph/PathProofs.required_vo: Typegraph/PathProofs.v Typegraph/Graph.vo Typegraph/Solver.vo Typegraph/Spec.vo Typegraph/SetLemmas.vo
 Typegraph/PathProofs.vio: Typegraph/PathProofs.v Typegraph/Graph.vio Typegraph/Solver.vio Typegraph/Spec.vio Typegraph/SetLemmas.vio
 Typegraph/PathProofs.vos Typegraph/PathProofs.vok Typegraph/PathProofs.required_vos: Typegraph/PathProofs.v Typegraph/Graph.vos Typegraph/Solver.vos Typegraph/Spec.vos Typegraph/SetLemmas.vos
